@@ -227,6 +227,7 @@ impl Property for C07 {
         if g.chance(1, 3) {
             c["prebatch"] = json!(true);
         }
+        graph_doc(&c)?;
         Some(c)
     }
     fn generate(&self, tier: Tier, seed: u64) -> Vec<Value> {
@@ -371,6 +372,11 @@ impl Property for C07 {
             .collect();
         out.extend(rooted);
         out.extend(rnd);
+        // combinations that denote no document (an alias with several targets, a flattened
+        // union over non-objects, bare alias cycles) are outside the domain
+        let before = out.len();
+        out.retain(|gv| graph_doc(gv).is_some());
+        gen::excluded("graph-denotes-no-document", (before - out.len()) as u64);
         out
     }
     fn exhaustive(&self, _tier: Tier) -> bool {
